@@ -8,6 +8,9 @@ use serde::{Deserialize, Serialize};
 use std::collections::{BTreeMap, BTreeSet, HashMap, HashSet};
 
 pub const SLACK_US: u64 = 1_000_000;
+/// Pairwise rules compare a delivery with this many later deliveries of the same message (any
+/// subset of pairs is sound; a runaway redelivery loop must not make the oracle quadratic).
+pub const PAIR_WINDOW: usize = 8;
 pub const PULL_LIMIT_US: u64 = 300 * 1_000_000;
 
 #[derive(Serialize, Deserialize, Clone, Debug, PartialEq)]
@@ -497,7 +500,7 @@ fn rule_c03(ctx: &Ctx, out: &mut Vec<Violation>) {
         };
         for (i, &a) in list.iter().enumerate() {
             let d = &m.deliveries[a];
-            for &b in list.iter().skip(i + 1) {
+            for &b in list.iter().skip(i + 1).take(PAIR_WINDOW) {
                 let d2 = &m.deliveries[b];
                 let lease = ctx.lease_at(d, inst.deadline_us(), d2.lo_seq, d2.recv_seq);
                 if lease.maybe_acked {
@@ -531,7 +534,7 @@ fn rule_c02(ctx: &Ctx, out: &mut Vec<Violation>) {
         };
         for (i, &a) in list.iter().enumerate() {
             let d = &m.deliveries[a];
-            for &b in list.iter().skip(i + 1) {
+            for &b in list.iter().skip(i + 1).take(PAIR_WINDOW) {
                 let d2 = &m.deliveries[b];
                 let lease = ctx.lease_at(d, inst.deadline_us(), d2.lo_seq, d2.recv_seq);
                 let (ack_seq, ack_t) = match lease.acked_at {
@@ -807,8 +810,9 @@ fn rule_c08(ctx: &Ctx, out: &mut Vec<Violation>) {
             }
         }
         // pairwise order
+        let window = if firsts.len() <= 400 { usize::MAX } else { 32 };
         for (i, a) in firsts.iter().enumerate() {
-            for b in firsts.iter().skip(i + 1) {
+            for b in firsts.iter().skip(i + 1).take(window) {
                 let a_before_b = (a.response == b.response && a.pos < b.pos) || (a.response != b.response && m.definitely_before(a, b));
                 let b_before_a = (a.response == b.response && b.pos < a.pos) || (a.response != b.response && m.definitely_before(b, a));
                 if let (Some(x), Some(y)) = (parse_id(&a.recv.msg_id), parse_id(&b.recv.msg_id)) {
